@@ -67,14 +67,30 @@ type c20probe struct {
 	panicNext bool
 	panicInactive bool
 	inactNext func()
+	panicWrite   bool   // the handler below the write-idle handler panics (after its processing time)
+	during       func() // runs while a read/write is being processed below/behind the idle handler
+	panicActive  bool   // the handler behind the idle handler panics in HandleActive
+	closeActive  func() // … or closes the channel there (connection limit, failed handshake)
 }
 
 func (p *c20probe) HandleRead(ctx netty.InboundContext, m netty.Message) {
 	p.clk.now += p.delay
+	if f := p.during; f != nil {
+		p.during = nil
+		f()
+	}
 	ctx.HandleRead(m)
 }
 func (p *c20probe) HandleWrite(ctx netty.OutboundContext, m netty.Message) {
 	p.clk.now += p.delay
+	if f := p.during; f != nil {
+		p.during = nil
+		f()
+	}
+	if p.panicWrite {
+		p.panicWrite = false
+		panic("nv-write-handler-panic")
+	}
 	ctx.HandleWrite(m)
 }
 func (p *c20probe) HandleEvent(ctx netty.EventContext, ev netty.Event) {
@@ -107,6 +123,18 @@ type evtOnly struct{ p *c20probe }
 
 func (o evtOnly) HandleEvent(ctx netty.EventContext, ev netty.Event)             { o.p.HandleEvent(ctx, ev) }
 func (o evtOnly) HandleException(ctx netty.ExceptionContext, ex netty.Exception) { o.p.HandleException(ctx, ex) }
+func (o evtOnly) HandleActive(ctx netty.ActiveContext) {
+	if f := o.p.closeActive; f != nil {
+		o.p.closeActive = nil
+		f()
+		return
+	}
+	if o.p.panicActive {
+		o.p.panicActive = false
+		panic("nv-active-handler-panic")
+	}
+	ctx.HandleActive()
+}
 func (o evtOnly) HandleInactive(ctx netty.InactiveContext, ex netty.Exception) {
 	if o.p.panicInactive {
 		o.p.panicInactive = false
@@ -161,24 +189,70 @@ func runC20(seed int64, count int) {
 			}
 			switch r := rng.Intn(12); {
 			case r < 2 && !active:
-				pl.FireChannelActive()
-				active = true
-				report("active", sec(), "-")
+				switch rng.Intn(6) {
+				case 0: // a handler behind the idle handler refuses the connection inside HandleActive
+					pr.closeActive = inactive
+					netty.NvInvoke(ch, func() { pl.FireChannelActive() })
+					report("activeinact", sec(), "-")
+				case 1: // … or panics there; the exception is consumed, the channel stays open
+					pr.panicActive = true
+					netty.NvInvoke(ch, func() { pl.FireChannelActive() })
+					active = true
+					report("active", sec(), "panic")
+				default:
+					pl.FireChannelActive()
+					active = true
+					report("active", sec(), "-")
+				}
 			case r < 6:
 				if rng.Intn(3) == 0 { // burst: a message 1 tick after the previous operation
 					clk.now += tick
 				}
 				pr.delay = time.Duration(rng.Intn(4)) * tick
+				if rng.Intn(5) == 0 {
+					pr.delay = time.Duration(rng.Intn(idle+3)) * tick // a slow handler / a peer that is not reading
+				}
 				d := int(pr.delay / tick)
 				t0 := sec()
+				// 1/3: the timer that comes due while the message is being processed fires right then
+				firedAt, firedEv, firedExc := -1, "", 0
+				if rng.Intn(3) == 0 {
+					pr.during = func() {
+						t := clk.due()
+						if t == nil || clk.now < t.deadline {
+							return
+						}
+						saved, savedExc := pr.events, pr.excs
+						pr.events, pr.excs = nil, 0
+						t.armed = false
+						t.f()
+						firedAt, firedEv, firedExc = sec(), strings.Join(pr.events, ","), pr.excs
+						pr.events, pr.excs = saved, savedExc
+					}
+				}
+				emitFired := func() {
+					if firedAt >= 0 {
+						if firedEv == "" {
+							firedEv = "-"
+						}
+						emit("C20 op fire %d - ev=%s exc=%d", firedAt, firedEv, firedExc)
+					}
+				}
 				if kind == "r" {
 					pl.FireChannelRead("m")
+					emitFired()                                    // the callback ran before the read was recorded
 					report("touch", sec(), fmt.Sprintf("d=%d", d)) // read-idle records after forwarding: at t0+d
 				} else {
-					pl.FireChannelWrite([]byte("w"))
+					if rng.Intn(5) == 0 {
+						pr.panicWrite = true // the write fails below the idle handler; the exception is consumed
+					}
+					netty.NvInvoke(ch, func() { pl.FireChannelWrite([]byte("w")) })
+					pr.panicWrite = false
 					report("touch", t0, fmt.Sprintf("d=%d", d)) // write-idle records before forwarding: at t0
+					emitFired()
 				}
 				pr.delay = 0
+				pr.during = nil
 			case r < 10:
 				// fire the due timer: exactly at its deadline, or late
 				t := clk.due()
@@ -218,11 +292,13 @@ func runC20(seed int64, count int) {
 				}
 			}
 		}
-		// finally: after inactive no timer may remain armed
+		// finally: after inactive no timer may remain armed; an active handler always has one pending
 		if !active {
 			if t := clk.due(); t != nil {
 				emit("C20 op leaked %d - ev=- exc=0", sec())
 			}
+		} else if clk.due() == nil {
+			emit("C20 op notimer %d - ev=- exc=0", sec())
 		}
 		netty.NvClk = nil
 	}
